@@ -7,6 +7,7 @@ import (
 	"verif/harness/mon/c11"
 	"verif/harness/mon/c12"
 	"verif/harness/mon/c14"
+	"verif/harness/mon/c16"
 	"verif/harness/mon/c17"
 	"verif/harness/mon/c19"
 )
@@ -18,6 +19,7 @@ func init() {
 	register("C11", c11.Run)
 	register("C12", c12.Run)
 	register("C14", c14.Run)
+	register("C16", c16.Run)
 	register("C17", c17.Run)
 	register("C19", c19.Run)
 }
